@@ -411,11 +411,17 @@ impl GcManaged for ObjClass {
     fn mark(&self) {
         self.metaclass.mark();
         self.methods.mark();
+        if let Some(superclass) = self.superclass.as_ref() {
+            superclass.mark();
+        }
     }
 
     fn blacken(&self) {
         self.metaclass.blacken();
         self.methods.blacken();
+        if let Some(superclass) = self.superclass.as_ref() {
+            superclass.blacken();
+        }
     }
 }
 
